@@ -34,7 +34,12 @@ MANIFEST = {
              "window); `lhs = rhs` evaluates to rhs - lhs; steady-variant selection; anticipated-shock insertion; for every well-nested "
              "!for/!if/!else forest of any depth the flat directive machine (level counting, matching !end/!else, control-name substitution "
              "with upper/lower forms) returns the denotation of the forest; log status with !all-but is the complement; quantities are "
-             "ordered by kind keeping declaration order. Character-level parsing (regexes, Jinja2, PEG grammars, comments, continuation "
+             "ordered by kind keeping declaration order; the keyword-alias normaliser maps every documented spelling to its canonical "
+             "keyword and never touches names or the `!!` separator (also glued: `!!k_ss`); substitution resolution is a pure function of the "
+             "source's own definitions (textual, last definition wins, translating a sequence of sources is the map of the one-source "
+             "function); a recursive-descent parser reads back every printed expression/equation (`parse (print e) = e`) and the composed "
+             "end-to-end statement (expand, print, parse, translate, evaluate = documented rhs - lhs) has input-level hypotheses only; moving "
+             "windows are written out for both signs and explicit zero shifts are not the default. Character-level parsing (regexes, Jinja2, PEG grammars, comments, continuation "
              "lines, bracket styles, parentheses) is NOT in the theorems: it is tied by correspondence on every run -- structured random "
              "models rendered with all syntactic alternatives, compared exactly (names, kinds, descriptions, log status, dyadic-exact "
              "equation values) or within 1e-9 (non-polynomial trees) with the model and with an independent evaluator of the unexpanded "
@@ -825,7 +830,7 @@ def run_subs_stream(ctx: Ctx, n: int):
                 d[nm] = " ".join(b)
             want = " ".join((d.get(t[1:-1], t) if t.startswith("$") else t) for t in eq)
             if " ".join(dyn.split()) != " ".join(want.split()):
-                ctx.fail("substitution-resolver", {"stream": "subs", "request": lines[-1], "history": lines[-4:-1]},
+                ctx.fail("substitution-resolver", {"stream": "subs", "request": lines[-1], "history": lines[-500:-1]},
                          f"resolved to {dyn!r}, this source's definitions give {want!r}")
         except Exception as e:
             got = "err:bad"
@@ -939,7 +944,35 @@ def run_parse_stream(ctx: Ctx, n: int):
 # entry points
 # ---------------------------------------------------------------------------------------
 
+def subs_exec(ctx: Ctx, line: str, history):
+    """one `subs` request line on the real resolver + the oracle (used by replays)"""
+    from irispie.parsers import _substitutions as _sb
+    dpart, epart = line[len("subs "):].split(" | ") if " | " in line else ("", line[len("subs | "):])
+    defs = [(w.split("=", 1)[0], w.split("=", 1)[1].split(",")) for w in dpart.split()]
+    eq = epart.split()
+    parsed = {"transition-equations": [("", (" ".join(eq), ""), ())]}
+    if defs:
+        parsed["substitutions"] = [("", (nm + "=" + " ".join(b), ""), ()) for nm, b in defs]
+    dyn = _sb.resolve_substitutions(parsed, ["transition-equations"])["transition-equations"][0][1][0]
+    d = {}
+    for nm, b in defs:
+        d[nm] = " ".join(b)
+    want = " ".join((d.get(t[1:-1], t) if t.startswith("$") else t) for t in eq)
+    ctx.evaluations += 1
+    if " ".join(dyn.split()) != " ".join(want.split()):
+        ctx.fail("substitution-resolver", {"stream": "subs", "request": line, "history": history},
+                 f"resolved to {dyn!r}, this source's definitions give {want!r}")
+
+
 def replay_payload(ctx: Ctx, p, with_model=True):
+    if p.get("stream") == "kwnorm":
+        run_kwnorm_stream(ctx, 0)
+        return
+    if p.get("stream") == "subs":
+        hist = list(p.get("history", []))
+        for i, l in enumerate(hist + [p["request"]]):
+            subs_exec(ctx, l, hist[:i])
+        return
     if p.get("stream") == "prep":
         out = impl_prep(p["source"], p["ctx_spec"])
         ctx.evaluations += 1
